@@ -6,6 +6,8 @@ From Coq Require Import ZArith QArith Qabs List Bool Permutation Sorted.
 From DV Require Import Model.PyPrims Gen.BitFns Gen.Consts Model.C05Model Model.C05Spec Model.C05Model2
      Proofs.C05Lists Proofs.C05Freq Proofs.C05Consensus Proofs.C05Stats Proofs.C05Trees
      Proofs.C05Array Proofs.C05Examples Proofs.C05Final Proofs.C05Bits Proofs.C05Laminar Proofs.C05Final2 Proofs.C05Scores Proofs.C05Unique Proofs.C05Final3.
+From DV Require Import Model.C05GenPrims Gen.SplitDist Proofs.C05GenStats Proofs.C05GenDist Proofs.C05GenDist2
+     Proofs.C05GenDist3 Proofs.C05GenDist4.
 Import ListNotations.
 Open Scope Z_scope.
 
@@ -463,3 +465,136 @@ Theorem treearray_weighting :
                     Qeq_bool (exact_freq ex_cfg_unweighted [tAB (Some 3%Q); tAC (Some 1%Q)] 3) (1 # 2) = true.
 Proof. exact treearray_weighting_l. Qed.
 Print Assumptions treearray_weighting.
+
+(* ================================================================== translator tie
+   Gen/SplitDist.v is regenerated on every run from the AST of treecollectionmodel.py and
+   calculate/statistics.py by py/dv/gen_splitdist.py (fail closed).  The theorems below state that
+   the generated functions equal the hand-written model (x_sd projects the generated object
+   state, which also carries the summary-cache attributes, onto the model's state); the property
+   theorems above therefore hold of the generated code by rewriting.  Hypotheses `NoDup (keys ..)`
+   say that a Python dict has distinct keys (the model keeps dicts as association lists). *)
+
+Theorem gen_mean_and_variance_pop_n_is_model : forall xs : list Q,
+  gen_mean_and_variance_pop_n xs = mean_and_variance_pop_n xs.
+Proof. exact gen_mean_and_variance_pop_n_eq. Qed.
+Print Assumptions gen_mean_and_variance_pop_n_is_model.
+
+Theorem gen_mean_and_sample_variance_is_model : forall xs : list Q,
+  gen_mean_and_sample_variance xs = mean_and_sample_variance xs.
+Proof. exact gen_mean_and_sample_variance_eq. Qed.
+Print Assumptions gen_mean_and_sample_variance_is_model.
+
+Theorem gen_median_is_model : forall xs : list Q, gen_median xs = median xs.
+Proof. exact gen_median_eq. Qed.
+Print Assumptions gen_median_is_model.
+
+(* summarize, exact keys: the generated dict holds exactly the model's record *)
+Theorem gen_summarize_is_model : forall xs : list Q,
+  gen_summarize xs = match summarize xs with
+                     | Ok sm => Ok (mkGs (Some (s_min sm, s_max sm)) (Some (s_mean sm)) (Some (s_var sm)) (Some (s_median sm)))
+                     | Err e => Err e
+                     | OutOfFuel => OutOfFuel
+                     end.
+Proof. exact gen_summarize_eq. Qed.
+Print Assumptions gen_summarize_is_model.
+
+Theorem gen_add_split_count_is_model : forall (c : config) (x : sdx) (s : Z) (q : Q),
+  gen_add_split_count c x s q = (upd_sd x (add_split_count (x_sd x) s q), tt).
+Proof. exact gen_add_split_count_eq. Qed.
+Print Assumptions gen_add_split_count_is_model.
+
+(* count_splits_on_tree: new state, and the three returned lists *)
+Theorem gen_count_splits_on_tree_is_model : forall (c : config) (x : sdx) (t : tree_in) (b : bool),
+  gen_count_splits_on_tree c x t b (default_len c)
+  = (upd_sd x (fst (count_tree c (x_sd x) t)), snd (count_tree c (x_sd x) t)).
+Proof. exact gen_count_splits_on_tree_eq. Qed.
+Print Assumptions gen_count_splits_on_tree_is_model.
+
+Theorem gen_calc_normalization_weight_is_model : forall (c : config) (x : sdx),
+  gen_calc_normalization_weight c x = (x, normalization_weight (x_sd x)).
+Proof. exact gen_calc_normalization_weight_eq. Qed.
+Print Assumptions gen_calc_normalization_weight_is_model.
+
+(* calc_freqs: the model's state and table; both summary caches reset to None *)
+Theorem gen_calc_freqs_is_model : forall (c : config) (x : sdx),
+  NoDup (map fst (counts (x_sd x))) ->
+  gen_calc_freqs c x
+  = (mkSdx (fst (calc_freqs (x_sd x))) None None (x_counted_for_summ x), Some (snd (calc_freqs (x_sd x)))).
+Proof. exact gen_calc_freqs_eq. Qed.
+Print Assumptions gen_calc_freqs_is_model.
+
+(* the split_frequencies property: recompute iff no table or the counter is stale *)
+Theorem gen_get_split_frequencies_is_model : forall (c : config) (x : sdx),
+  NoDup (map fst (counts (x_sd x))) ->
+  fst (gen_get_split_frequencies c x)
+  = (let d' := fst (get_freqs (x_sd x)) in
+     if py_is_none (freqs (x_sd x)) || negb (counted_for_freqs (x_sd x) =? total (x_sd x))
+     then mkSdx d' None None (x_counted_for_summ x) else x)
+  /\ snd (gen_get_split_frequencies c x) = Some (snd (get_freqs (x_sd x))).
+Proof. exact gen_get_split_frequencies_eq. Qed.
+Print Assumptions gen_get_split_frequencies_is_model.
+
+Theorem gen_getitem_is_model : forall (c : config) (x : sdx) (s : Z),
+  NoDup (map fst (counts (x_sd x))) ->
+  x_sd (fst (gen_getitem c x s)) = fst (query (x_sd x) s) /\ snd (gen_getitem c x s) = snd (query (x_sd x) s).
+Proof. exact gen_getitem_eq. Qed.
+Print Assumptions gen_getitem_is_model.
+
+(* update: the model's merge; summary caches reset, their counter set to 0 *)
+Theorem gen_update_is_model : forall (c : config) (x o : sdx),
+  NoDup (map fst (counts (x_sd o))) ->
+  gen_update c x o = (mkSdx (update (x_sd x) (x_sd o)) None None 0, tt).
+Proof. exact gen_update_eq. Qed.
+Print Assumptions gen_update_is_model.
+
+Theorem gen_rooting_predicates_are_model : forall (c : config) (x : sdx),
+  gen_is_all_counted_trees_rooted c x = (x, is_all_rooted (x_sd x)) /\
+  gen_is_all_counted_trees_strictly_unrooted c x = (x, is_all_strictly_unrooted (x_sd x)) /\
+  gen_is_all_counted_trees_treated_as_unrooted c x = (x, is_all_treated_as_unrooted (x_sd x)).
+Proof. exact (fun c x => conj eq_refl (conj eq_refl eq_refl)). Qed.
+Print Assumptions gen_rooting_predicates_are_model.
+
+(* consensus_tree up to the construction of the tree (rooting resolution, threshold filter with
+   the _almost_one clause, descending sort, from_split_bitmasks): same state, same accepted
+   clades, same tree as the model *)
+Theorem gen_consensus_tree_is_model :
+  forall (c : config) (x : sdx) (all : Z) (bits : list Z) (mf : option Q) (rarg : option bool) (b : bool),
+  NoDup (map fst (counts (x_sd x))) ->
+  (forall tbl, freqs (x_sd x) = Some tbl -> NoDup (map fst tbl)) ->
+  x_sd (fst (gen_consensus_tree c x all bits mf rarg b)) = fst (consensus (x_sd x) all bits mf rarg) /\
+  snd (gen_consensus_tree c x all bits mf rarg b)
+  = (snd (fst (fst (snd (consensus (x_sd x) all bits mf rarg)))),
+     snd (fst (snd (consensus (x_sd x) all bits mf rarg)))).
+Proof. exact gen_consensus_tree_eq. Qed.
+Print Assumptions gen_consensus_tree_is_model.
+
+(* calc_split_edge_length_summaries / calc_split_node_age_summaries: the model's table *)
+Theorem gen_calc_summaries_are_model : forall (c : config) (x : sdx),
+  (NoDup (map fst (elens (x_sd x))) ->
+   gen_calc_split_edge_length_summaries c x
+   = (sa__split_edge_length_summaries x (Some (gs_table (calc_summaries (elens (x_sd x))))),
+      Some (gs_table (calc_summaries (elens (x_sd x)))))) /\
+  (NoDup (map fst (nages (x_sd x))) ->
+   gen_calc_split_node_age_summaries c x
+   = (sa__split_node_age_summaries x (Some (gs_table (calc_summaries (nages (x_sd x))))),
+      Some (gs_table (calc_summaries (nages (x_sd x)))))).
+Proof. exact (fun c x => conj (gen_calc_split_edge_length_summaries_eq c x) (gen_calc_split_node_age_summaries_eq c x)). Qed.
+Print Assumptions gen_calc_summaries_are_model.
+
+(* the cached getters: whenever the single counter _trees_counted_for_summaries differs from
+   total_trees_counted (always, once a tree was counted: the code only ever assigns it 0) the
+   table is recomputed from the current value lists -- which is why the hand model keeps no
+   summary cache; when it does not differ the stored table is returned *)
+Theorem gen_summary_getters_fresh : forall (c : config) (x : sdx),
+  x_counted_for_summ x <> total (x_sd x) ->
+  (NoDup (map fst (elens (x_sd x))) ->
+   snd (gen_get_split_edge_length_summaries c x) = Some (gs_table (calc_summaries (elens (x_sd x)))) /\
+   x_sd (fst (gen_get_split_edge_length_summaries c x)) = x_sd x) /\
+  (NoDup (map fst (nages (x_sd x))) ->
+   snd (gen_get_split_node_age_summaries c x) = Some (gs_table (calc_summaries (nages (x_sd x)))) /\
+   x_sd (fst (gen_get_split_node_age_summaries c x)) = x_sd x).
+Proof.
+  exact (fun c x NE => conj (fun ND => gen_get_split_edge_length_summaries_fresh c x ND NE)
+                            (fun ND => gen_get_split_node_age_summaries_fresh c x ND NE)).
+Qed.
+Print Assumptions gen_summary_getters_fresh.
